@@ -54,6 +54,9 @@ def families(rnd):
     out.append(("word_identical_two_variants", [("seq", [w("--opt=", ["a", "b"]), L("x")]), ("seq", [w("--opt=", ["a", "b"]), L("y")])], []))
     out.append(("word_identical_two_definitions", [("alt", [("seq", [R("FIRST"), L("x")]), ("seq", [R("SECOND"), L("y")])])],
                 [("FIRST", "", w("--opt=", ["a", "b"])), ("SECOND", "", w("--opt=", ["a", "b"]))]))
+    out.append(("same_literal_two_descriptions_apart", [("seq", [L("remote", "Manage remotes"), L("add")]), L("status"), ("seq", [L("remote", "manage set of tracked repositories"), L("rm")])], []))
+    out.append(("word_in_later_branch_after_literals", [("seq", [L("--verbose"), ("fb", [L("foo"), w("--x=", ["a", "b"])])])], []))
+    out.append(("word_in_later_branch_after_p", [("seq", [L("p"), ("fb", [L("foo"), w("--x=", ["a", "b"])])])], []))
     out.append(("word_repeat_two_variants", [("seq", [w("k=", ["1", "2"]), L("r")]), ("seq", [w("k=", ["2", "1"]), L("s")])], []))
     return out
 
